@@ -9,28 +9,29 @@ Definition bvalJ (b : bval Z) : J :=
   match b with BV v => JZ v | BT l => JL (JS "t" :: map JZ l) | BD d => JL [JS "d"; kvJ d] end.
 (* a binding, canonically: items sorted by parameter name *)
 Definition bindingJ (r : amap (bval Z)) : J := JL (map (fun kv => JL [JS (fst kv); bvalJ (snd kv)]) (ssort r)).
-Definition specJ (s : sig Z) (c : call Z) : J := match bind s c with Some r => bindingJ r | None => JErr "TypeError" end.
+Definition kos := list (string * option Z).      (* keyword-only parameters, each with its default if any *)
+Definition specJ (s : sig Z) (ko : kos) (c : call Z) : J := match bindk s ko c with Some r => bindingJ r | None => JErr "TypeError" end.
 
-(* (signature, call) -> [inspect.getcallargs; pyg_base.getcallargs; f called through call_with_callargs] *)
-Definition run_bind (x : sig Z * call Z) : J :=
-  let '(s, c) := x in
-  JL [specJ s c;
-      match lib_getcallargs_py s c with LOk r => bindingJ r | LErr e => JErr e end;
-      match lib_getcallargs_py s c with
+(* (signature, keyword-only parameters, call) -> [inspect.getcallargs; pyg_base.getcallargs; f called through call_with_callargs] *)
+Definition bind3 (s : sig Z) (ko : kos) (c : call Z) : list J :=
+  [specJ s ko c;
+      match lib_getcallargs_k s ko c with LOk r => bindingJ r | LErr e => JErr e end;
+      match lib_getcallargs_k s ko c with
       | LOk r =>
           (* an invalid call can leave an int under the varargs / varkw name: unpacking an int raises TypeError *)
           let is_bv := fun k => match aget k r with Some (BV _) => true | _ => false end in
           if (varargs s && is_bv VARGS) || (varkw s && is_bv VKW) then JErr "TypeError"
-          else specJ s (call_with_callargs s r)
+          else specJ s ko (call_with_callargs s r)
       | LErr e => JErr e
       end].
+Definition run_bind (x : sig Z * kos * call Z) : J := let '(s, ko, c) := x in JL (bind3 s ko c).
 
 Definition tag_name (t : tag) : string :=
   match t with TTry => "try_value" | TBack => "try_back" | TKws => "kwargs_support" | TCache => "cache_func" | TLoop => "loops" | TPd => "pd2np" end.
 Definition chainJ (c : list tag) : J := JL (map (fun t => JS (tag_name t)) c).
 (* the function under the wrappers returns its own binding, or raises when [raises] *)
-Definition base_fn (s : sig Z) (raises : bool) (c : call Z) : lres J :=
-  match bind s c with
+Definition base_fn (s : sig Z) (ko : kos) (raises : bool) (c : call Z) : lres J :=
+  match bindk s ko c with
   | None => LErr "TypeError"
   | Some r => if raises then LErr "ZeroDivisionError" else LOk (bindingJ r)
   end.
@@ -56,16 +57,27 @@ Definition pdcall_z (exc : list string) (s : sig Z) (c : call Z) : call Z :=
               else c
   | None => c
   end.
-Definition run_stack (x : list tag * sig Z * bool * call Z * J * list string) : J :=
-  let '(ts, s, raises, c, fallback, exc) := x in      (* fallback: the value of the try_value variant in the stack (None, 0, NaN, True, False, []) *)
+(* the wrappers know the function through getargs = positional names followed by keyword-only names *)
+Definition wsig (s : sig Z) (ko : kos) : sig Z :=
+  {| pos := pos s ++ map fst ko; defs := defs s; varargs := varargs s; varkw := varkw s |}.
+Definition stack_out (ts : list tag) (s : sig Z) (ko : kos) (raises : bool) (fallback : J) (exc : list string) (c : call Z) : J :=
+  outJ (call_stack fallback JZ (pdcall_z exc) (wsig s ko) (wraps (rev ts) []) (base_fn s ko raises) c).
+Definition run_stack (x : list tag * sig Z * kos * bool * call Z * J * list string) : J :=
+  let '(ts, s, ko, raises, c, fallback, exc) := x in      (* fallback: the value of the try_value variant in the stack (None, 0, NaN, True, False, []) *)
   let chain := wraps (rev ts) [] in
-  let f := base_fn s raises in
+  let f := base_fn s ko raises in
   JL [chainJ chain;
       chainJ (match chain with t :: _ => wrap t chain | [] => [] end);
       chainJ (match ts with t :: _ => wrap t chain | [] => [] end);
-      outJ (call_stack fallback JZ (pdcall_z exc) s chain f c);
+      stack_out ts s ko raises fallback exc c;
       outJ (f c);
       JB true].
+
+(* a sequence of getcallargs / calls on ONE wrapper object (each step is independent of the earlier ones), then the
+   forwarded specification once more *)
+Definition run_seq (x : list tag * sig Z * kos * list (bool * call Z)) : J :=
+  let '(ts, s, ko, steps) := x in
+  JL (map (fun st : bool * call Z => if fst st then stack_out ts s ko false JNone [] (snd st) else JL (bind3 s ko (snd st))) steps ++ [JB true]).
 
 (* cache: call sequences on a function of any arguments that returns how many times it has been evaluated *)
 Fixpoint avJ (a : av) : J :=
@@ -78,13 +90,14 @@ Fixpoint avJ (a : av) : J :=
   | ATup l => JL (JS "t" :: map avJ l)
   | AList l => JL (JS "l" :: map avJ l)
   | ADict d => JL (JS "d" :: (fix go (d : list (string * av)) := match d with [] => [] | (k, v) :: d' => JL [JS k; avJ v] :: go d' end) d)
+  | AUnh id => JL [JS "u"; JZ id]
   end.
 Definition callJ (c : call av) : J := JL [JL (map avJ (fst c)); JL (map (fun kv => JL [JS (fst kv); avJ (snd kv)]) (snd c))].
 (* the n-th evaluation returns the n-th value of a given pool (None, 0, '', [], False, NaN, ...): a stored None
    must still count as present *)
 Definition run_cache (x : list av * list (call av)) : J :=
   let '(pool, cs) := x in
-  let st := crun (call_key true) lz_eqb (fun n _ => avJ (nth n pool ANone)) cs in
+  let st := crunu (call_key true) lz_eqb (fun n _ => avJ (nth n pool ANone)) (fun c => negb (call_unhashable c)) cs in
   JL [JL (rets st); JL (map callJ (trace st))].
 
 (* try_value(value = v) over a history: step i raises or returns i; the caller mutates every fallback it receives *)
